@@ -548,6 +548,12 @@ def run_bulgarian(mon, ctx, job, rnd):
             if n >= 6000:
                 mm, r = divmod(n, 6000)
                 attach.call(f, ag, g, ev, '%d:%02d.%02d' % (mm, r // 100, r % 100))
+                if n % 10 == 0:
+                    attach.call(f, ag, g, ev, '%d:%02d.%d' % (mm, r // 100, (r % 100) // 10))      # one decimal
+                if n % 100 == 0:
+                    attach.call(f, ag, g, ev, '%d:%02d' % (mm, r // 100))                          # whole seconds
+            if n % 10 == 0:
+                attach.call(f, ag, g, ev, '%d.%d' % (n // 100, (n % 100) // 10))
 
 
 RUNNERS = {'tyrving': run_tyrving, 'qkids': run_qkids, 'sportshall': run_sportshall, 'bulgarian': run_bulgarian}
